@@ -8,9 +8,9 @@ import LecProofs.HeaderLemmas
 namespace Lec
 
 /-- contract of a backend's encode operation that the front end relies on. -/
-structure EncodeOK (be : Backend) (k m : Nat) : Prop where
+structure EncodeOK (be : Backend) (k m : Nat) (bsOK : Nat → Prop := fun _ => True) : Prop where
   data_kept : ∀ d p bs d' p', be.encode d p bs = .ok (d', p') → d' = d
-  parity_len : ∀ d p bs d' p', d.length = k → p.length = m → (∀ x ∈ d, x.length = bs) →
+  parity_len : ∀ d p bs d' p', bsOK bs → d.length = k → p.length = m → (∀ x ∈ d, x.length = bs) →
       (∀ x ∈ p, x.length = bs) → be.encode d p bs = .ok (d', p') → p'.length = m ∧ ∀ x ∈ p', x.length = bs
 
 /-! ### the split loop -/
@@ -62,15 +62,17 @@ def specFragment (env : Env) (i : Inst) (len bs : Nat) (p : Bytes) (idx : Nat) :
 def blockSize (i : Inst) (len : Nat) : Nat := alignedSize i len / i.k
 
 theorem encode_spec (env : Env) (be : Backend) (i : Inst) (data : Bytes) (frags : List Bytes)
-    (hbe : EncodeOK be i.k i.m) (hlen : data.length < 2 ^ 31)
+    {bsOK : Nat → Prop} (hbe : EncodeOK be i.k i.m bsOK) (hbs : bsOK (blockSize i data.length))
+    (hlen : data.length < 2 ^ 31)
     (h : encode env be i data = .ok frags) :
     ∃ par : List Bytes, par.length = i.m ∧ (∀ x ∈ par, x.length = blockSize i data.length) ∧
       frags = ((splitLoop i.k (blockSize i data.length) data ++ par).zipIdx.map fun (p, idx) =>
         specFragment env i data.length (blockSize i data.length) p idx) := by
-  generalize hbs : blockSize i data.length = bs
+  generalize hbs' : blockSize i data.length = bs
   unfold encode at h
-  unfold blockSize at hbs
-  simp only [hbs] at h
+  have hbs2 := hbs'
+  unfold blockSize at hbs2
+  simp only [hbs2] at h
   simp only [bind, Except.bind] at h
   split at h
   · cases h
@@ -78,7 +80,7 @@ theorem encode_spec (env : Env) (be : Backend) (i : Inst) (data : Bytes) (frags 
     obtain ⟨d', p'⟩ := v
     simp only [pure, Except.pure, Except.ok.injEq] at h
     have hd : d' = splitLoop i.k bs data := hbe.data_kept _ _ _ _ _ hv
-    have hp := hbe.parity_len _ _ _ _ _ (splitLoop_length _ _ _) (List.length_replicate ..)
+    have hp := hbe.parity_len _ _ _ _ _ (by rw [← hbs']; exact hbs) (splitLoop_length _ _ _) (List.length_replicate ..)
       (splitLoop_elem_length i.k bs data)
       (by intro x hx; rw [List.mem_replicate] at hx; rw [hx.2]; exact zeros_length _) hv
     refine ⟨p', hp.1, hp.2, ?_⟩
@@ -99,7 +101,7 @@ theorem encode_spec (env : Env) (be : Backend) (i : Inst) (data : Bytes) (frags 
 theorem nullBackend_encodeOK (k m : Nat) : EncodeOK nullBackend k m where
   data_kept := by intro d p bs d' p' h; simp [nullBackend] at h; exact h.1.symm
   parity_len := by
-    intro d p bs d' p' _ hm _ hp h
+    intro d p bs d' p' _ _ hm _ hp h
     simp [nullBackend] at h
     rw [← h.2]; exact ⟨hm, hp⟩
 
